@@ -1,22 +1,279 @@
-(* find_notification_data_in_list (AttDbModel.v: cccd_infos, stable_sort, sorted_infos, cccd_indices,
-   cccd_position, find_notification_data_by_index): for EVERY configuration and priority declaration
+(* Frame lemma of the ATT server model, used by C08, C09, C10, C11: whatever l2cap_input (att_input),
+   l2cap_output (att_output) or any other operation does, the per connection data changes only
 
-     - the priority sort is a permutation of the characteristics with a CCCD,
-     - their declaration order numbers (ci_pos = ClientCharacteristicIndex) are 0 .. k-1, k =
-       number_of_client_configs,
-     - so the position [cccd_position c cci] that the CCCD attribute number cci uses in the per
-       connection store is < k, is a bijection, and is exactly the index under which
-       find_notification_data_by_index returns that characteristic.
-   Used by C09 and C10. *)
-From Coq Require Import Lia ZifyBool Permutation.
-From BT Require Import Base.ListX AttDb.AttDbModel.
+     - on the connection the request arrived on (all other connections are untouched), and only by
+     - Exchange MTU (client_mtu := a value >= 23),
+     - the CCCD attribute (cccd := cccd_set ...),
+     - a notification queue operation (nq := step ...),
+
+   and from it: an invariant of connections that these three changes, a security change and a fresh
+   connection preserve holds in every reachable state ([inv_reachable]). *)
+From Coq Require Import Lia ZifyBool.
+From BT Require Import Base.ListX AttDb.AttDbModel NQueue.NQueueModel AttSrv.AttSrvModel.
 Local Open Scope N_scope.
 
-(* ------------------------------------------------------------------ index_ofN *)
-Lemma index_ofN_in x l : In x l -> index_ofN x l < len l /\ nth_error l (N.to_nat (index_ofN x l)) = Some x.
+Ltac inv H := inversion H; subst; clear H.
+
+Lemma f_some_inj (A : Type) (a b : A) : Some a = Some b -> a = b.
+Proof. intros H. inversion H. reflexivity. Qed.
+Lemma f_pair_inj (A B : Type) (a c : A) (b d : B) : (a, b) = (c, d) -> a = c /\ b = d.
+Proof. intros H. inversion H. split; reflexivity. Qed.
+Lemma f_failed_inj (A : Type) (a b : resp) : @Failed A a = Failed b -> a = b.
+Proof. intros H. inversion H. reflexivity. Qed.
+Lemma f_passed_inj (A : Type) (a b : A) : Passed a = Passed b -> a = b.
+Proof. intros H. inversion H. reflexivity. Qed.
+
+(* break the option monad / conditionals of a hypothesis "... = Some _" *)
+Ltac fmon :=
+  repeat match goal with
+         | H : Some _ = Some _ |- _ => apply f_some_inj in H
+         | H : None = Some _ |- _ => discriminate H
+         | H : Passed _ = Failed _ |- _ => discriminate H
+         | H : Failed _ = Passed _ |- _ => discriminate H
+         | H : Failed _ = Failed _ |- _ => apply f_failed_inj in H
+         | H : Passed _ = Passed _ |- _ => apply f_passed_inj in H
+         | H : (_, _) = (_, _) |- _ => apply f_pair_inj in H; destruct H
+         | H : _ = ?v |- _ => is_var v; subst v
+         | H : ?v = _ |- _ => is_var v; subst v
+         | H : match ?x with Some _ => _ | None => None end = Some _ |- _ =>
+             let E := fresh "E" in destruct x eqn:E; [|discriminate H]
+         | H : (let '(_, _) := ?x in _) = Some _ |- _ => destruct x
+         end.
+Ltac fbrk := match goal with H : (if ?x then _ else _) = Some _ |- _ => destruct x eqn:? end.
+
+(* ------------------------------------------------------------------ upd *)
+Lemma upd_upd (A : Type) (l : list A) i a b : upd (upd l i a) i b = upd l i b.
+Proof. revert i. induction l as [|x t IH]; intros [|i]; simpl; auto. rewrite IH. reflexivity. Qed.
+
+Lemma nth_error_upd_eq (A : Type) (l : list A) i a : (i < length l)%nat -> nth_error (upd l i a) i = Some a.
+Proof. revert i. induction l as [|x t IH]; intros [|i] H; simpl in *; try lia; auto. apply IH. lia. Qed.
+
+Lemma nth_error_upd_neq (A : Type) (l : list A) i j a : i <> j -> nth_error (upd l i a) j = nth_error l j.
+Proof. revert i j. induction l as [|x t IH]; intros [|i] [|j] H; simpl; auto; try congruence. Qed.
+
+Lemma upd_nth_error_same (A : Type) (l : list A) i a : nth_error l i = Some a -> upd l i a = l.
+Proof. revert i. induction l as [|x t IH]; intros [|i] H; simpl in *; try discriminate; auto.
+  - inv H. reflexivity.
+  - rewrite IH; auto.
+Qed.
+
+Lemma nth_error_lt (A : Type) (l : list A) i a : nth_error l i = Some a -> (i < length l)%nat.
+Proof. intros H. apply nth_error_Some. congruence. Qed.
+
+(* ------------------------------------------------------------------ changes of one connection *)
+(* [mt] : may the client MTU change (only an Exchange MTU Request does that) *)
+Inductive conn_change (mt : bool) : conn -> conn -> Prop :=
+| cc_refl k : conn_change mt k k
+| cc_mtu k m k2 :
+    mt = true -> default_att_mtu <= m ->
+    conn_change mt (mkConn m (cccd k) (encrypted k) (pairing k) (nq k)) k2 -> conn_change mt k k2
+| cc_cccd k pos v k2 :
+    conn_change mt (mkConn (client_mtu k) (cccd_set (cccd k) pos v) (encrypted k) (pairing k) (nq k)) k2 -> conn_change mt k k2
+| cc_nq k o k2 :
+    conn_change mt (fst (nq_step k o)) k2 -> conn_change mt k k2.
+
+Lemma conn_change_trans mt a b d : conn_change mt a b -> conn_change mt b d -> conn_change mt a d.
 Proof.
-  induction l as [|a t IH]; simpl; [tauto|]. intros H.
-  destruct (x =? a) eqn:E.
-  - apply N.eqb_eq in E. subst. split; [unfold len; simpl; lia|reflexivity].
-  - destruct H as [H|H]; [subst; rewrite N.eqb_refl in E; discriminate|].
+  induction 1; intros H2; auto.
+  - eapply cc_mtu; eauto.
+  - eapply cc_cccd; eauto.
+  - eapply cc_nq; eauto.
+Qed.
+
+Lemma conn_change_weaken mt a b : conn_change mt a b -> conn_change true a b.
+Proof.
+  induction 1; [constructor| | |].
+  - eapply cc_mtu; eauto.
+  - eapply cc_cccd; eauto.
+  - eapply cc_nq; eauto.
+Qed.
+
+Lemma conn_change_mtu a b : conn_change false a b -> client_mtu b = client_mtu a.
+Proof.
+  induction 1; auto; try discriminate.
+  - rewrite IHconn_change. unfold nq_step. destruct (NQueueModel.step (nq k) o). reflexivity.
+Qed.
+
+Definition frameb (mt : bool) (cid : nat) (st st' : srv_state) : Prop :=
+  exists k k', get_conn st cid = Some k /\ conns st' = upd (conns st) cid k' /\ conn_change mt k k'.
+Notation frame := (frameb true).
+
+Lemma frameb_weaken mt cid st st' : frameb mt cid st st' -> frame cid st st'.
+Proof. intros (k & k' & G & E & C). exists k, k'. repeat split; auto. eapply conn_change_weaken; eauto. Qed.
+
+Lemma frame_same mt cid st st' k : get_conn st cid = Some k -> conns st' = conns st -> frameb mt cid st st'.
+Proof.
+  intros G E. exists k, k. split; auto. split; [|constructor].
+  rewrite E. symmetry. apply upd_nth_error_same. exact G.
+Qed.
+
+Lemma frame_trans mt cid st st1 st2 : frameb mt cid st st1 -> frameb mt cid st1 st2 -> frameb mt cid st st2.
+Proof.
+  intros (k & k1 & G & E & C) (k1' & k2 & G1 & E1 & C1).
+  unfold get_conn in *. rewrite E in G1. rewrite nth_error_upd_eq in G1 by (eapply nth_error_lt; eauto).
+  inv G1. exists k, k2. split; auto. split.
+  - rewrite E1, E, upd_upd. reflexivity.
+  - eapply conn_change_trans; eauto.
+Qed.
+
+Lemma frame_get mt cid st st' : frameb mt cid st st' -> exists k, get_conn st cid = Some k.
+Proof. intros (k & _ & G & _). eauto. Qed.
+
+Lemma frame_other mt cid st st' j : frameb mt cid st st' -> j <> cid -> get_conn st' j = get_conn st j.
+Proof.
+  intros (k & k' & G & E & _) N. unfold get_conn. rewrite E. apply nth_error_upd_neq. auto.
+Qed.
+
+Lemma frame_this mt cid st st' : frameb mt cid st st' ->
+  exists k k', get_conn st cid = Some k /\ get_conn st' cid = Some k' /\ conn_change mt k k'.
+Proof.
+  intros (k & k' & G & E & C). exists k, k'. repeat split; auto.
+  unfold get_conn in *. rewrite E. apply nth_error_upd_eq. eapply nth_error_lt; eauto.
+Qed.
+
+(* ------------------------------------------------------------------ attribute access *)
+Lemma value_read_conns c st sec s ch gci off maxlen st' r d :
+  value_read c st sec s ch gci off maxlen = (st', r, d) -> conns st' = conns st.
+Proof.
+  unfold value_read. destruct (security_check _ _ _); try (intros H; inv H; reflexivity).
+  destruct (c_value ch).
+  - destruct (c_no_read ch); [intros H; inv H; reflexivity|]. destruct (mem_read _ _ _). intros H; inv H. reflexivity.
+  - destruct (c_no_read ch); [intros H; inv H; reflexivity|]. destruct (mem_read _ _ _). intros H; inv H. reflexivity.
+  - destruct (mem_read _ _ _). intros H; inv H. reflexivity.
+  - destruct (negb rd); [intros H; inv H; reflexivity|].
+    destruct (negb blob && negb (off =? 0)); [intros H; inv H; reflexivity|].
+    destruct (mem_read _ _ _). intros H; inv H. reflexivity.
+Qed.
+
+Lemma access_read_conns c st cid a index off maxlen st' r d :
+  access_read c st cid a index off maxlen = Some (st', r, d) -> conns st' = conns st.
+Proof.
+  unfold access_read. destruct (get_conn st cid) as [k|]; [|discriminate].
+  destruct a as [s|u|s ch|s ch gci cci|s ch cci|nm|u v].
+  - destruct (mem_read _ _ _). intros H; inv H. reflexivity.
+  - destruct (mem_read _ _ _). intros H; inv H. reflexivity.
+  - destruct (char_decl_value c ch index); [|discriminate]. destruct (mem_read _ _ _). intros H; inv H. reflexivity.
+  - intros H; inv H. eapply value_read_conns; eauto.
+  - destruct (security_check _ _ _); try (intros H; inv H; reflexivity).
+    destruct (mem_read _ _ _). intros H; inv H. reflexivity.
+  - destruct (mem_read _ _ _). intros H; inv H. reflexivity.
+  - destruct (mem_read _ _ _). intros H; inv H. reflexivity.
+Qed.
+
+Lemma value_write_conns c st sec s ch gci off data st' r :
+  value_write c st sec s ch gci off data = (st', r) -> conns st' = conns st.
+Proof.
+  unfold value_write. destruct (security_check _ _ _); try (intros H; inv H; reflexivity).
+  destruct (c_value ch).
+  - destruct (is_const || c_no_write ch); [intros H; inv H; reflexivity|].
+    destruct (mem_write _ _ _). intros H; inv H. reflexivity.
+  - repeat match goal with |- context [if ?x then _ else _] => destruct x end; intros H; inv H; reflexivity.
+  - intros H; inv H; reflexivity.
+  - destruct (negb wr); [intros H; inv H; reflexivity|].
+    destruct (negb blob && negb (off =? 0)); [intros H; inv H; reflexivity|].
+    destruct (mem_write _ _ _). intros H; inv H. reflexivity.
+Qed.
+
+Lemma cccd_write_frame mt c st cid k cci off data st' r :
+  get_conn st cid = Some k -> cccd_write c st cid k cci off data = (st', r) -> frameb mt cid st st'.
+Proof.
+  intros G. unfold cccd_write.
+  destruct (2 <? off); [intros H; inv H; eapply frame_same; eauto|].
+  destruct (2 <? len data + off); [intros H; inv H; eapply frame_same; eauto|].
+  destruct (off =? 0); [|intros H; inv H; eapply frame_same; eauto].
+  intros H; inv H. exists k. eexists. split; [exact G|]. split; [reflexivity|].
+  eapply cc_cccd. constructor.
+Qed.
+
+Lemma access_write_frame mt c st cid a off data st' r :
+  access_write c st cid a off data = Some (st', r) -> frameb mt cid st st'.
+Proof.
+  unfold access_write. destruct (get_conn st cid) as [k|] eqn:G; [|discriminate].
+  destruct a as [s|u|s ch|s ch gci cci|s ch cci|nm|u v]; intros H.
+  1-3,7: inv H; eapply frame_same; eauto.
+  - inv H. eapply frame_same; eauto. eapply value_write_conns; eauto.
+  - destruct (security_check _ _ _); try (inv H; eapply frame_same; eauto; fail).
+    inv H. eapply cccd_write_frame; eauto.
+  - inv H. eapply frame_same; eauto.
+Qed.
+
+(* ------------------------------------------------------------------ the handlers *)
+Lemma exchange_mtu_frame c st cid pdu b n st' r k0 :
+  get_conn st cid = Some k0 ->
+  handle_exchange_mtu c st cid pdu b n = Some (st', r) -> frame cid st st'.
+Proof.
+  intros G. unfold handle_exchange_mtu. intros H. fmon. fbrk; fmon; [eapply frame_same; eauto|].
+  fbrk; fmon; [eapply frame_same; eauto|].
+  eexists. eexists. split; [eassumption|]. split; [reflexivity|].
+  eapply cc_mtu; [reflexivity| |constructor]. apply N.ltb_ge. assumption.
+Qed.
+
+(* destruct the acc_res / checked scrutinee of the hypothesis *)
+Ltac fres := match goal with
+  | H : match ?x with Success => _ | Err _ => _ | ValueEqual => _ end = Some _ |- _ => destruct x
+  end.
+Ltac fchk := match goal with
+  | H : match ?x with Failed _ => _ | Passed _ => _ end = Some _ |- _ => let f := fresh "f" in let h := fresh "h" in let i := fresh "i" in destruct x as [f|[h i]]
+  end.
+Ltac fread := match goal with E : access_read _ _ _ _ _ _ _ = Some _ |- _ => apply access_read_conns in E end.
+Ltac fstep := first [fres | fchk | fbrk]; fmon.
+
+Lemma read_common_conns c st cid pdu b n rsp h index off st' r :
+  handle_read_common c st cid pdu b n rsp h index off = Some (st', r) -> conns st' = conns st.
+Proof. unfold handle_read_common. intros H. fmon. fread. fres; fmon; auto. Qed.
+
+Lemma read_conns c st cid pdu b n st' r : handle_read c st cid pdu b n = Some (st', r) -> conns st' = conns st.
+Proof. unfold handle_read. intros H. fmon. fchk; fmon; auto. eapply read_common_conns; eauto. Qed.
+
+Lemma read_blob_conns c st cid pdu b n st' r : handle_read_blob c st cid pdu b n = Some (st', r) -> conns st' = conns st.
+Proof. unfold handle_read_blob. intros H. fmon. fchk; fmon; auto. eapply read_common_conns; eauto. Qed.
+
+Lemma collect_attribute_conns c st cid k e index a st' k' :
+  collect_attribute c st cid k e index a = Some (st', k') -> conns st' = conns st.
+Proof.
+  unfold collect_attribute. intros H. fbrk; fmon; auto. fread.
+  fres; fmon; auto. fbrk; fmon. fbrk; fmon; auto.
+Qed.
+
+Lemma all_attributes_conns fuel : forall c st cid f k e index last eh st' k',
+  all_attributes fuel c st cid f k e index last eh = Some (st', k') -> conns st' = conns st.
+Proof.
+  induction fuel as [|fuel IH]; intros c st cid f k e index last eh st' k' H; simpl in H; fmon; auto.
+  fbrk; fmon; auto. fbrk.
+  - fmon. match goal with E : collect_attribute _ _ _ _ _ _ _ = Some _ |- _ => apply collect_attribute_conns in E end.
+    apply IH in H. congruence.
+  - apply IH in H. auto.
+Qed.
+
+Lemma read_by_type_conns c st cid pdu b n st' r : handle_read_by_type c st cid pdu b n = Some (st', r) -> conns st' = conns st.
+Proof.
+  unfold handle_read_by_type. intros H. fmon. fchk; fmon; auto.
+  match goal with E : all_attributes _ _ _ _ _ _ _ _ _ _ = Some _ |- _ => apply all_attributes_conns in E end.
+  fbrk; fmon; auto.
+Qed.
+
+Lemma read_multiple_loop_conns c cid opcode b0 n : forall m hs st b p st' r,
+  (length hs <= m)%nat ->
+  read_multiple_loop c st cid opcode hs b0 b p n = Some (st', r) -> conns st' = conns st.
+Proof.
+  induction m as [|m IH]; intros hs st b p st' r L H.
+  - destruct hs; [|simpl in L; lia]. simpl in H. fmon. auto.
+  - destruct hs as [|lo [|hi t]]; simpl in H; fmon; auto.
+    fbrk; fmon; auto. fbrk; fmon; auto. fread.
+    fres; fmon; auto. fbrk; fmon. apply IH in H; [congruence|]. simpl in L. lia.
+Qed.
+
+Lemma read_multiple_conns c st cid pdu b n st' r : handle_read_multiple c st cid pdu b n = Some (st', r) -> conns st' = conns st.
+Proof.
+  unfold handle_read_multiple. intros H. fmon. fbrk; fmon; auto.
+  eapply read_multiple_loop_conns in H; eauto.
+Qed.
+
+Ltac fwrite := match goal with E : access_write _ _ _ _ _ _ = Some _ |- _ => apply access_write_frame in E end.
+
+Lemma write_request_frame mt c st cid pdu b n st' r k :
+  get_conn st cid = Some k -> handle_write_request c st cid pdu b n = Some (st', r) -> frameb mt cid st st'.
+Proof.
+  intros G. unfold handle_write_request. intros H. fmon. fbrk; fmon; [eapply frame_same; eauto|].
+  fchk; fmon; [eapply frame_same; eauto|]. fwrite. fres; fmon; auto.
 Show.
